@@ -265,3 +265,11 @@ Definition pop_wf (s : popsys) : bool :=
 Definition sigmoid_base (E : Qc -> Qc) (x : Qc) : Qc := 1 / (1 + E (- x)).
 Definition sigmoid_logistic (E : Qc -> Qc) (x : Qc) : Qc := E x / (1 + E x).
 Definition sigmoid_fortran_vec (E : Qc -> Qc) (xs : row) : row := map (fun x => 1 / (1 + E (- x))) xs.   (* do n=1,s: f(n) = 1/(1+exp(-x(n))) *)
+
+(* ================================================================================================ user-level roll equations *)
+(* x' = -a*x + k*roll(x, n1) + g*roll(z, n2),  z' = x - a*roll(z, n3)  on vector variables of one node (vectorize=False);
+   rl is the backend's rendering of roll: numpy/torch/jax `roll`, Fortran `cshift` with the negated shift *)
+Definition vmul (c : Qc) (a : row) : row := vscale c a.
+Definition roll_net_deriv (rl : row -> Z -> row) (a k g : Qc) (n1 n2 n3 : Z) (x z : row) : row * row :=
+  (vadd (vadd (vmul (- a) x) (vmul k (rl x n1))) (vmul g (rl z n2)), vadd x (vmul (- a) (rl z n3))).
+Definition roll_of (b : backend) : row -> Z -> row := match b with BFortran => fortran_roll | _ => roll end.
